@@ -319,25 +319,15 @@ def r3(ctx, F, rule, sfx):
 
 def r4(ctx, F, rule, sfx):
     nb = F.body_by_suffix('VoronoiCell::neighbour_ids')
-    cl = [c for c in F.closures_of(nb)]
-    if len(cl) != 1:
-        raise AnalysisIncomplete('closures in neighbour_ids: %d' % len(cl))
-    c = cl[0]
-    ip = I.Interp(F)
+    ip = I.Interp(F, no_inline=[x['path'] for x in F.bodies if strip_generics(x['path']).endswith('VoronoiCell::face_indices')])
     me = I.Sym(nf.sym_atom('cell'), 'voronoi::voronoi_cell::VoronoiCell')
     vor = I.Sym(nf.sym_atom('vor'), 'voronoi::Voronoi')
-    ups = c.get('upvars') or []
-    env = {}
-    for i, u in enumerate(ups):
-        if 'VoronoiCell' in u['ty']:
-            env[i] = ip.ref_to(me, u['ty'])
-        elif 'Voronoi' in u['ty']:
-            env[i] = ip.ref_to(vor, u['ty'])
-        else:
-            raise AnalysisIncomplete('unexpected capture %s in neighbour_ids' % u['ty'])
-    cv = I.St('closure:' + c['path'], None, env)
-    v, _ = ip.call_body(c, [ip.ref_to(cv), ip.ref_to(RF.sym('fi'), '&usize')])
+    r, _ = ip.call_body(nb, [ip.ref_to(me), ip.ref_to(vor)])
+    ch, src = stream_chain(I.frozen(r))
+    # what the stream yields for ONE listed face index fi (any composition of element-wise adaptors: filter_map, filter + map, ...)
+    v, si = stream_element(ip, ch, ip.ref_to(RF.sym('fi'), '&usize'))
     ctx.evaluations += ip.evaluations
+    c = nb
     w = where(c)
     face = 'vor.faces[fi]'
     f_left, f_right, f_shift = (face + '.' + face_path_str(F, n) for n in ('left', 'right', 'shift'))
@@ -385,13 +375,10 @@ def r4(ctx, F, rule, sfx):
             ok = isinstance(got, I.St) and got.variant == 'Some' and repr(got.fields[0]) == f_left
             want = 'Some(left)'
         ctx.check(rule, 'neighbour[%s]%s' % (dtab.fmt_env(env_), sfx), ok, g[:100], want, w, key_extra='%s' % dtab.fmt_env(env_))
-    # the closure is applied to every listed face index: filter_map over iter(face_indices)
-    ip2 = I.Interp(F, no_inline=[x['path'] for x in F.bodies if strip_generics(x['path']).endswith('VoronoiCell::face_indices')])
-    r, _ = ip2.call_body(nb, [ip2.ref_to(me), ip2.ref_to(vor)])
-    ch, src = stream_chain(I.frozen(r))
+    # the element function is applied to every listed face index: element-wise adaptors over iter(face_indices(self, voronoi))
     nm = [n for n, _ in ch]
-    ok = nm == ['filter_map', 'iter', 'face_indices'] and repr(src) == 'cell' and [repr(x) for x in ch[2][1]] == ['vor']
-    ctx.check(rule, 'over-all-listed-faces' + sfx, ok, '%s over %s' % (' <- '.join(nm), repr(src)[-80:]), 'filter_map(iter(self.face_indices(voronoi)))', where(nb), key_extra='stream')
+    ok = nm[si:] == ['iter', 'face_indices'] and repr(src) == 'cell' and [repr(x) for x in ch[si + 1][1]] == ['vor'] and all(n in ELEMENTWISE_FN for n in nm[:si])
+    ctx.check(rule, 'over-all-listed-faces' + sfx, ok, '%s over %s' % (' <- '.join(nm), repr(src)[-80:]), 'element-wise adaptors over iter(self.face_indices(voronoi))', where(nb), key_extra='stream')
 
 
 def r5(ctx, F, rule, sfx):
